@@ -3,6 +3,7 @@
      VTup [VInt 1; parts; prog]   StatCounter objects (one per partition) merged in the order given by [prog]
      VTup [VInt 2; parts]         DataFrame with these partitions of (x, y) rows: covariance helper fields, cov, corr
      VTup [VInt 3; parts; prog]   CovarianceCounter objects merged in the order given by [prog]
+     VTup [VInt 4; rdds; sprog]   a session on REUSED RDD objects (Model.Stats.session): observations, final stack
    parts : VList of VList of numbers (VInt / VFloat) resp. of VTup [x; y];
    prog  : a merge tree in postfix form: i >= 0 pushes the summary of partition i, -1 pops r then l and pushes
            l.mergeStats(r), -2 pops s and pushes s.mergeStats(s). *)
@@ -52,6 +53,17 @@ Fixpoint rpn {A} (parts : list (list A)) (prog : list Z) (stack : list (mtree A)
 Definition as_prog (v : val) : option (list Z) :=
   match v with VList l => all_Z l | _ => None end.
 
+(* session programs: VList of VTup [VInt opcode; arg]: 0 i push, 1 merge, 2 self-merge, 3 v fold, 4 j observe *)
+Definition as_sop (v : val) : option (@sop FloatOps) :=
+  match v with
+  | VTup [VInt 0; VInt i] => if 0 <=? i then Some (SPush (Z.to_nat i)) else None
+  | VTup [VInt 1; _] => Some SMerge
+  | VTup [VInt 2; _] => Some SSelf
+  | VTup [VInt 3; x] => match as_num x with Some f => Some (SFold f) | None => None end
+  | VTup [VInt 4; VInt j] => if 0 <=? j then Some (SObserve (Z.to_nat j)) else None
+  | _ => None
+  end.
+
 Definition run (c : val) : val :=
   match c with
   | VTup [VInt 0; ps] =>
@@ -80,6 +92,17 @@ Definition run (c : val) : val :=
       | Some parts, Some prog =>
           match rpn parts prog [] with
           | Some t => cc_view (tree_cov t)
+          | None => VBad
+          end
+      | _, _ => VBad
+      end
+  | VTup [VInt 4; rs; pg] =>
+      match (match rs with VList l => all_of (as_partitions as_num) l | _ => None end),
+            (match pg with VList l => all_of as_sop l | _ => None end) with
+      | Some rdds, Some prog =>
+          match session neg_infinity infinity rdds prog [] [] with
+          | Some (obs, stack) =>
+              VTup [VList (map (fun o => sc_view (fst o)) obs); VList (map (fun o => sc_view (fst o)) (rev stack))]
           | None => VBad
           end
       | _, _ => VBad
